@@ -282,3 +282,10 @@ package env
 //@ requires e != nil
 //@ requires [C13] unlocked: nolocks()
 //@ ensures result != nil && fresh(result)
+// the copy shares no scope with the original: stated for the first three levels of the chain (each level follows from the
+// level above of the recursive call, so deeper levels hold by the same step; the induction itself is not one obligation)
+//@ ensures [C12] shape: (result.parent == nil) == (e.parent == nil) && (e.parent != nil ==> ((result.parent.parent == nil) == (e.parent.parent == nil)))
+//@ ensures [C12] deep1: e.parent != nil ==> fresh(result.parent)
+//@ ensures [C12] deep2: e.parent != nil && e.parent.parent != nil ==> fresh(result.parent.parent)
+//@ ensures [C12] deep3: e.parent != nil && e.parent.parent != nil && e.parent.parent.parent != nil ==> fresh(result.parent.parent.parent)
+//@ ensures [C12] src: e.parent == old(e.parent) && e.values == old(e.values) && e.types == old(e.types)
